@@ -59,7 +59,9 @@ func init() {
 		tmp, _ := os.MkdirTemp("", "tshgen")
 		defer os.RemoveAll(tmp)
 		for i := 0; i < n; i++ {
-			inNames := []string{"prog.tsh", "a.b.tsh", "noext", "my prog.tsh", ".tsh", "src/prog.tsh", "x.y/prog", "p.txt"}
+			inNames := []string{"prog.tsh", "a.b.tsh", "noext", "my prog.tsh", ".tsh", "src/prog.tsh", "x.y/prog", "p.txt",
+				// stems that end in letters of the extension, contain the extension, or are the extension's letters
+				"lists.tsh", "hash.tsh", "sh.tsh", "tsh.tsh", "v1.s.tsh", "src/tests.tsh", "a.tsh.tsh", "prog.TSH", "t", "paths.txt"}
 			in := inNames[r.Intn(len(inNames))]
 			outs := []string{"out", "out dir", ".", "o.d"}
 			out := outs[r.Intn(len(outs))]
